@@ -28,9 +28,14 @@ import (
 	"context"
 	"fmt"
 	"os"
+	"runtime"
+	"strconv"
+	"strings"
 	"sync"
+	"sync/atomic"
 	"testing"
 	"time"
+	"unsafe"
 
 	client "github.com/liftbridge-io/liftbridge-api/v2/go"
 	"google.golang.org/grpc/codes"
@@ -61,6 +66,7 @@ type vC13State struct {
 	Reg    map[string]map[string]int     `json:"reg"`    // node -> group -> index
 	RegCE  map[string]map[string]vC13Reg `json:"regce"`  // node -> group -> entry
 	NLoops map[string]int64              `json:"nloops"` // node -> running loops
+	Ldr    string                        `json:"ldr"`    // the node that leads the partition (as the servers see it)
 }
 
 type vC13Obs struct {
@@ -86,6 +92,13 @@ type vC13Run struct {
 	groups []string
 	subs   []*vC13Sub
 	base   map[string]int64 // subscriberCount of each partition object before the behaviour
+	// the leadership as the driver arranged it (only an Elect step changes it): a
+	// leader change nobody asked for (timeouts on a loaded machine) makes the run
+	// inconclusive
+	expLeader string
+	expEpoch  uint64
+	all       []*Server
+	fifo      int // Race steps in which the mutex was seen in FIFO hand-over mode
 }
 
 var vC13Nodes = []string{"L", "F"}
@@ -154,7 +167,133 @@ func (r *vC13Run) state() vC13State {
 		}
 		st.NLoops[n] = vC13Count(r.p[n]) - r.base[n]
 	}
+	st.Ldr = r.leaderNode()
 	return st
+}
+
+// leaderNode: the node whose own partition object names it as the leader ("?" if
+// the two servers disagree)
+func (r *vC13Run) leaderNode() string {
+	out := "?"
+	for _, n := range vC13Nodes {
+		if l, _ := r.p[n].GetLeader(); l == r.srv[n].config.Clustering.ServerID {
+			if out != "?" {
+				return "?"
+			}
+			out = n
+		}
+	}
+	return out
+}
+
+// checkEnv: nothing but the driver's own Elect steps may have moved the leadership
+func (r *vC13Run) checkEnv(what string) {
+	for _, n := range vC13Nodes {
+		if l, e := r.p[n].GetLeader(); l != r.expLeader || e != r.expEpoch {
+			r.t.Fatalf("INCONCLUSIVE: behaviour %d: %s: leadership moved by itself (server %s sees leader %s epoch %d, arranged %s epoch %d)",
+				r.id, what, n, l, e, r.expLeader, r.expEpoch)
+		}
+	}
+}
+
+// adopt files the subscription a subscribe call returned: the subscriptions of the
+// recorded state are the REAL objects - a call that hands out an object that was
+// handed out before creates no new subscription (index of the old one, false).
+func (r *vC13Run) adopt(sub *subscription, x *vC13Sub) (int, bool) {
+	for i, s := range r.subs {
+		if s.sub == sub {
+			return i + 1, false
+		}
+	}
+	x.sub = sub
+	r.subs = append(r.subs, x)
+	return len(r.subs), true
+}
+
+func (r *vC13Run) request(q map[string]interface{}, step map[string]interface{}) *client.SubscribeRequest {
+	g, c, e, bad, stop := vStr(q, "g"), vStr(q, "c"), vInt(q, "e"), vBool(q, "bad"), vStr(q, "stop")
+	req := &client.SubscribeRequest{
+		Stream:         r.stream,
+		Partition:      0,
+		StartPosition:  client.StartPosition_NEW_ONLY,
+		ReadISRReplica: vBool(q, "ris"),
+	}
+	if g != "" {
+		req.Consumer = &client.Consumer{GroupId: r.realGroup(g), GroupEpoch: uint64(e), ConsumerId: c}
+	}
+	if stop != "none" {
+		// a stop position that is not reached (the log is empty): the
+		// subscription keeps running like an open-ended one
+		req.StopPosition = client.StopPosition_STOP_OFFSET
+		req.StopOffset = vIntDef(step, "stopoff", 1000)
+	}
+	if bad {
+		switch vStrDef(step, "badkind", "start") {
+		case "start":
+			req.StartPosition = client.StartPosition(99)
+		case "stoplatest": // the stream is empty
+			req.StopPosition = client.StopPosition_STOP_LATEST
+		default: // stop offset before the start offset
+			req.StartPosition = client.StartPosition_OFFSET
+			req.StartOffset = 5
+			req.StopPosition = client.StopPosition_STOP_OFFSET
+			req.StopOffset = 2
+		}
+	}
+	return req
+}
+
+// vMutexWaiters reads the number of goroutines parked on a sync.Mutex (state >> 3).
+// Only used to pace a Race step (which schedule is explored); never for a verdict.
+func vMutexWaiters(m *sync.Mutex) int32 {
+	return atomic.LoadInt32((*int32)(unsafe.Pointer(m))) >> 3
+}
+
+// vLoopGoroutines: ids of the goroutines that run a subscribe loop right now (from a
+// stack dump of the process).  A Race step ends one loop and may start another, so
+// subscriberCount alone cannot tell "both happened" from "neither happened yet".
+func vLoopGoroutines() map[int]bool {
+	buf := make([]byte, 1<<20)
+	for {
+		n := runtime.Stack(buf, true)
+		if n < len(buf) {
+			buf = buf[:n]
+			break
+		}
+		buf = make([]byte, 2*len(buf))
+	}
+	out := map[int]bool{}
+	for _, blk := range strings.Split(string(buf), "\n\n") {
+		if !strings.Contains(blk, "newSubscribeLoop.func1") {
+			continue
+		}
+		f := strings.Fields(blk)
+		if len(f) >= 2 && f[0] == "goroutine" {
+			if id, err := strconv.Atoi(f[1]); err == nil {
+				out[id] = true
+			}
+		}
+	}
+	return out
+}
+
+// vWaitStarving waits (briefly) until the mutex is in starvation mode (state bit 4)
+func vWaitStarving(m *sync.Mutex) bool {
+	deadline := time.Now().Add(200 * time.Millisecond)
+	for time.Now().Before(deadline) {
+		if atomic.LoadInt32((*int32)(unsafe.Pointer(m)))&4 != 0 {
+			return true
+		}
+		time.Sleep(20 * time.Microsecond)
+	}
+	return false
+}
+
+func vWaitWaiters(m *sync.Mutex, n int32) {
+	deadline := time.Now().Add(200 * time.Millisecond)
+	for vMutexWaiters(m) < n && time.Now().Before(deadline) {
+		time.Sleep(20 * time.Microsecond)
+	}
 }
 
 func vC13ErrClass(err error) string {
@@ -195,35 +334,9 @@ func (r *vC13Run) step(step map[string]interface{}) vC13Event {
 			q := step["q"].(map[string]interface{})
 			n, ris := vStr(q, "n"), vBool(q, "ris")
 			g, c, e, bad, stop := vStr(q, "g"), vStr(q, "c"), vInt(q, "e"), vBool(q, "bad"), vStr(q, "stop")
+			_ = ris
 			args["q"] = map[string]interface{}{"n": n, "ris": ris, "g": g, "c": c, "e": e, "bad": bad, "stop": stop}
-			req := &client.SubscribeRequest{
-				Stream:         r.stream,
-				Partition:      0,
-				StartPosition:  client.StartPosition_NEW_ONLY,
-				ReadISRReplica: ris,
-			}
-			if g != "" {
-				req.Consumer = &client.Consumer{GroupId: r.realGroup(g), GroupEpoch: uint64(e), ConsumerId: c}
-			}
-			if stop != "none" {
-				// a stop position that is not reached (the log is empty): the
-				// subscription keeps running like an open-ended one
-				req.StopPosition = client.StopPosition_STOP_OFFSET
-				req.StopOffset = vIntDef(step, "stopoff", 1000)
-			}
-			if bad {
-				switch vStrDef(step, "badkind", "start") {
-				case "start":
-					req.StartPosition = client.StartPosition(99)
-				case "stoplatest": // the stream is empty
-					req.StopPosition = client.StopPosition_STOP_LATEST
-				default: // stop offset before the start offset
-					req.StartPosition = client.StartPosition_OFFSET
-					req.StartOffset = 5
-					req.StopPosition = client.StopPosition_STOP_OFFSET
-					req.StopOffset = 2
-				}
-			}
+			req := r.request(q, step)
 			before := vC13Count(r.p[n])
 			ctx, cancel := context.WithCancel(context.Background())
 			sub, err := r.srv[n].api.SubscribeInternal(ctx, req)
@@ -232,8 +345,13 @@ func (r *vC13Run) step(step map[string]interface{}) vC13Event {
 				cancel()
 				return
 			}
-			r.subs = append(r.subs, &vC13Sub{N: n, G: g, C: c, E: e, Loop: true, sub: sub, cancel: cancel})
-			obs.ID = len(r.subs)
+			id, isNew := r.adopt(sub, &vC13Sub{N: n, G: g, C: c, E: e, Loop: true, cancel: cancel})
+			obs.ID = id
+			if !isNew {
+				// the call handed out a subscription that exists already: nothing new runs
+				cancel()
+				return
+			}
 			// the loop goroutine registers itself asynchronously
 			r.waitCount(n, before+1, "loop start")
 		case "Burst":
@@ -252,7 +370,11 @@ func (r *vC13Run) step(step map[string]interface{}) vC13Event {
 			out := make([]res, len(cs))
 			start := make(chan struct{})
 			var wg sync.WaitGroup
-			before := vC13Count(r.p["L"])
+			ln := r.leaderNode()
+			if ln == "?" {
+				r.t.Fatalf("INCONCLUSIVE: behaviour %d: no agreed leader", r.id)
+			}
+			before := vC13Count(r.p[ln])
 			for i := range cs {
 				wg.Add(1)
 				go func(i int) {
@@ -265,11 +387,29 @@ func (r *vC13Run) step(step map[string]interface{}) vC13Event {
 					}
 					ctx, cancel := context.WithCancel(context.Background())
 					<-start
-					sub, err := r.srv["L"].api.SubscribeInternal(ctx, req)
+					sub, err := r.srv[ln].api.SubscribeInternal(ctx, req)
 					out[i] = res{sub, err, cancel}
 				}(i)
 			}
-			close(start)
+			if vStrDef(step, "mode", "free") == "convoy" {
+				// like Race: all subscribes park on consumersMu, then it is handed over in
+				// FIFO order (a subscribe that lets go of the mutex in the middle and takes it
+				// again queues behind the others)
+				m := &r.p[ln].consumersMu
+				m.Lock()
+				w0 := vMutexWaiters(m)
+				close(start)
+				vWaitWaiters(m, w0+int32(len(cs)))
+				time.Sleep(1500 * time.Microsecond)
+				m.Unlock()
+				m.Lock()
+				if vWaitStarving(m) {
+					r.fifo++
+				}
+				m.Unlock()
+			} else {
+				close(start)
+			}
 			wg.Wait()
 			accepted, classes := 0, map[string]bool{}
 			for i, o := range out {
@@ -278,8 +418,11 @@ func (r *vC13Run) step(step map[string]interface{}) vC13Event {
 					o.cancel()
 					continue
 				}
-				accepted++
-				r.subs = append(r.subs, &vC13Sub{N: "L", G: g, C: cs[i], E: e, Loop: true, sub: o.sub, cancel: o.cancel})
+				if _, isNew := r.adopt(o.sub, &vC13Sub{N: ln, G: g, C: cs[i], E: e, Loop: true, cancel: o.cancel}); isNew {
+					accepted++
+				} else {
+					classes["handed-out-twice"] = true
+				}
 			}
 			switch {
 			case len(classes) > 1:
@@ -289,7 +432,7 @@ func (r *vC13Run) step(step map[string]interface{}) vC13Event {
 			default:
 				obs.ID = accepted
 			}
-			r.waitCount("L", before+int64(accepted), "burst loops start")
+			r.waitCount(ln, before+int64(accepted), "burst loops start")
 		case "Cancel":
 			s := int(vInt(step, "s"))
 			args["s"] = s
@@ -308,11 +451,203 @@ func (r *vC13Run) step(step map[string]interface{}) vC13Event {
 			}
 			r.exitLoop(r.subs[s-1])
 			obs.ID = s
+		case "Race":
+			// The clean-up of the ending subscription s and the subscribe q contend for
+			// consumersMu AT THE SAME TIME.  The driver holds the mutex, lets both park on
+			// it (in the order `first` names), keeps them waiting beyond sync.Mutex's
+			// starvation threshold and then hands the mutex over: it is now passed on in
+			// strict FIFO order, so whenever one contender releases it and takes it again
+			// (a critical section split in two), the other one runs in between.  Which
+			// schedule results is exploration; the quiescent state afterwards is judged.
+			s := int(vInt(step, "s"))
+			args["s"] = s
+			q, ok := step["q"].(map[string]interface{})
+			if !ok {
+				// the request is given by consumer and epoch: same server, same group as s
+				q = map[string]interface{}{"n": "L", "ris": false, "g": "", "c": vStr(step, "c"), "e": step["e"],
+					"bad": false, "stop": "none"}
+				if s >= 1 && s <= len(r.subs) {
+					q["n"], q["g"] = r.subs[s-1].N, r.subs[s-1].G
+				}
+			}
+			n, g, c, e := vStr(q, "n"), vStr(q, "g"), vStr(q, "c"), vInt(q, "e")
+			args["q"] = map[string]interface{}{"n": n, "ris": vBool(q, "ris"), "g": g, "c": c, "e": e,
+				"bad": vBool(q, "bad"), "stop": vStr(q, "stop")}
+			if s < 1 || s > len(r.subs) || !r.subs[s-1].Loop || r.subs[s-1].N != n {
+				obs.A, a = "Skip", "Skip"
+				return
+			}
+			x := r.subs[s-1]
+			p := r.p[n]
+			req := r.request(q, step)
+			before := vC13Count(p)
+			loopsBefore := vLoopGoroutines()
+			exitFirst := vStrDef(step, "first", "exit") == "exit"
+			var (
+				sub    *subscription
+				err    error
+				done   = make(chan struct{})
+				stop   = make(chan struct{})
+				ctx, cancel = context.WithCancel(context.Background())
+			)
+			startExit := func() {
+				x.cancel()
+				go func() { // the API handler: takes the loop's final status
+					for {
+						select {
+						case <-x.sub.Errors():
+						case <-x.sub.Messages():
+						case <-stop:
+							return
+						}
+					}
+				}()
+			}
+			startSub := func() {
+				go func() {
+					defer close(done)
+					defer func() { // a panic of the real code is an observation
+						if p := recover(); p != nil {
+							sub, err = nil, fmt.Errorf("panic:%v", p)
+						}
+					}()
+					sub, err = r.srv[n].api.SubscribeInternal(ctx, req)
+				}()
+			}
+			p.consumersMu.Lock()
+			w0 := vMutexWaiters(&p.consumersMu)
+			if exitFirst {
+				startExit()
+				vWaitWaiters(&p.consumersMu, w0+1)
+				startSub()
+			} else {
+				startSub()
+				vWaitWaiters(&p.consumersMu, w0+1)
+				startExit()
+			}
+			vWaitWaiters(&p.consumersMu, w0+2)
+			time.Sleep(1500 * time.Microsecond) // beyond the starvation threshold (1 ms)
+			p.consumersMu.Unlock()
+			// barge in: the woken waiter finds the mutex taken, switches it to FIFO hand-over
+			// (starvation mode) and parks again; then let go
+			p.consumersMu.Lock()
+			if vWaitStarving(&p.consumersMu) {
+				r.fifo++
+			}
+			p.consumersMu.Unlock()
+			select {
+			case <-done:
+			case <-time.After(vC13Deadline):
+				close(stop)
+				r.t.Fatalf("INCONCLUSIVE: behaviour %d: racing subscribe did not return", r.id)
+			}
+			accepted := int64(0)
+			obs.Err = vC13ErrClass(err)
+			if err != nil || sub == nil {
+				cancel()
+			} else {
+				id, isNew := r.adopt(sub, &vC13Sub{N: n, G: g, C: c, E: e, Loop: true, cancel: cancel})
+				obs.ID = id
+				if isNew {
+					accepted = 1
+				} else {
+					cancel()
+				}
+			}
+			// quiescence: exactly one of the loops that ran before is gone, the new loop (if
+			// any) runs, and subscriberCount has settled
+			deadline := time.Now().Add(vC13Deadline)
+			for {
+				gone, fresh := 0, 0
+				now := vLoopGoroutines()
+				for id := range loopsBefore {
+					if !now[id] {
+						gone++
+					}
+				}
+				for id := range now {
+					if !loopsBefore[id] {
+						fresh++
+					}
+				}
+				if gone == 1 && int64(fresh) == accepted && vC13Count(p) == before-1+accepted {
+					break
+				}
+				if time.Now().After(deadline) {
+					close(stop)
+					r.t.Fatalf("INCONCLUSIVE: behaviour %d: race did not settle (loops gone %d, new %d, accepted %d, subscriberCount %d, before %d)",
+						r.id, gone, fresh, accepted, vC13Count(p), before)
+				}
+				time.Sleep(50 * time.Microsecond)
+			}
+			close(stop)
+			x.Loop = false
+		case "Elect":
+			r.elect(&obs)
 		default:
 			r.t.Fatalf("unknown action %q", a)
 		}
 	}()
+	r.checkEnv("after " + a)
 	return vC13Event{T: r.id, A: a, Args: args, St: r.state(), Obs: obs}
+}
+
+// elect: the controller elects the other in-sync replica, through the real
+// metadataAPI.electNewPartitionLeader (Raft operation CHANGE_LEADER applied on both
+// servers); returns when both servers run in their new roles.
+func (r *vC13Run) elect(obs *vC13Obs) {
+	cur := r.leaderNode()
+	var ms *Server
+	deadline := time.Now().Add(vC13Deadline)
+	for ms == nil {
+		for _, s := range r.all {
+			if s.IsLeader() {
+				ms = s
+			}
+		}
+		if ms == nil {
+			if time.Now().After(deadline) {
+				r.t.Fatalf("INCONCLUSIVE: behaviour %d: no metadata leader", r.id)
+			}
+			time.Sleep(time.Millisecond)
+		}
+	}
+	mp := ms.metadata.GetPartition(r.stream, 0)
+	for mp == nil || len(mp.GetISR()) < 2 || cur == "?" {
+		if time.Now().After(deadline) {
+			r.t.Fatalf("INCONCLUSIVE: behaviour %d: the follower is not in the ISR (or no agreed leader)", r.id)
+		}
+		time.Sleep(time.Millisecond)
+		mp = ms.metadata.GetPartition(r.stream, 0)
+		cur = r.leaderNode()
+	}
+	leader, epoch := mp.GetLeader()
+	ctx, cancel := context.WithTimeout(context.Background(), vC13Deadline)
+	defer cancel()
+	if st := ms.metadata.electNewPartitionLeader(ctx, mp, leader, epoch); st != nil {
+		if ctx.Err() != nil {
+			r.t.Fatalf("INCONCLUSIVE: behaviour %d: election timed out: %v", r.id, st.Message())
+		}
+		obs.Err = "refused:" + st.Message()
+		return
+	}
+	next := "L"
+	if cur == "L" {
+		next = "F"
+	}
+	want := r.srv[next].config.Clustering.ServerID
+	for {
+		la, ea := r.p["L"].GetLeader()
+		lb, eb := r.p["F"].GetLeader()
+		if la == want && lb == want && ea == eb && r.p[next].IsLeader() && r.p[cur].isFollowingNow() {
+			r.expLeader, r.expEpoch = want, ea
+			return
+		}
+		if time.Now().After(deadline) {
+			r.t.Fatalf("INCONCLUSIVE: behaviour %d: the servers did not take their new roles", r.id)
+		}
+		time.Sleep(50 * time.Microsecond)
+	}
 }
 
 // exitLoop makes the subscribe loop of x return and waits for its deferred
@@ -359,12 +694,31 @@ func TestVerifGroupSub(t *testing.T) {
 	// other follows it (and has its own partition object and group table)
 	cfgA := vOneNodeConfig(t, "a")
 	srvA := vOneNodeServer(t, cfgA)
-	defer srvA.Stop()
-	srvB, err := RunServerWithConfig(vJoinConfig(t, "b", cfgA))
+	var srvB *Server
+	// Server.Stop waits for ever when subscriptions were left open (a run that ended
+	// with INCONCLUSIVE in the middle of a behaviour): give up after a while instead of
+	// sitting there until the test timeout
+	defer func() {
+		done := make(chan struct{})
+		go func() {
+			if srvB != nil {
+				srvB.Stop()
+			}
+			srvA.Stop()
+			close(done)
+		}()
+		select {
+		case <-done:
+		case <-time.After(15 * time.Second):
+			fmt.Fprintln(os.Stderr, "c13: the servers do not stop (subscriptions left open); giving up")
+		}
+	}()
+	var err error
+	srvB, err = RunServerWithConfig(vJoinConfig(t, "b", cfgA))
 	if err != nil {
+		srvB = nil
 		t.Fatalf("INCONCLUSIVE: second server did not start: %v", err)
 	}
-	defer srvB.Stop()
 
 	stream := "c13"
 	deadline := time.Now().Add(3 * vC13Deadline)
@@ -380,30 +734,34 @@ func TestVerifGroupSub(t *testing.T) {
 		}
 		time.Sleep(50 * time.Millisecond)
 	}
-	srv := map[string]*Server{}
-	p := map[string]*partition{}
-	for {
-		pa, pb := srvA.metadata.GetPartition(stream, 0), srvB.metadata.GetPartition(stream, 0)
-		if pa != nil && pb != nil {
-			la, _ := pa.GetLeader()
-			lb, _ := pb.GetLeader()
-			if la == lb && la == "a" && pa.IsLeader() && pb.isFollowingNow() {
-				srv["L"], srv["F"], p["L"], p["F"] = srvA, srvB, pa, pb
-				break
+	// "L" = the server that leads the partition when a behaviour starts, "F" the other
+	// (identities for the whole behaviour, whatever the Elect steps do)
+	roles := func() (map[string]*Server, map[string]*partition, string, uint64) {
+		deadline := time.Now().Add(3 * vC13Deadline)
+		for {
+			pa, pb := srvA.metadata.GetPartition(stream, 0), srvB.metadata.GetPartition(stream, 0)
+			if pa != nil && pb != nil {
+				la, ea := pa.GetLeader()
+				lb, eb := pb.GetLeader()
+				if la == lb && ea == eb && la == "a" && pa.IsLeader() && pb.isFollowingNow() {
+					return map[string]*Server{"L": srvA, "F": srvB}, map[string]*partition{"L": pa, "F": pb}, la, ea
+				}
+				if la == lb && ea == eb && la == "b" && pb.IsLeader() && pa.isFollowingNow() {
+					return map[string]*Server{"L": srvB, "F": srvA}, map[string]*partition{"L": pb, "F": pa}, la, ea
+				}
 			}
-			if la == lb && la == "b" && pb.IsLeader() && pa.isFollowingNow() {
-				srv["L"], srv["F"], p["L"], p["F"] = srvB, srvA, pb, pa
-				break
+			if time.Now().After(deadline) {
+				t.Fatalf("INCONCLUSIVE: partition did not start on both servers")
 			}
+			time.Sleep(time.Millisecond)
 		}
-		if time.Now().After(deadline) {
-			t.Fatalf("INCONCLUSIVE: partition did not start on both servers")
-		}
-		time.Sleep(time.Millisecond)
 	}
 
+	races, elects, fifo := 0, 0, 0
 	for _, b := range sf.Behaviours {
-		run := &vC13Run{t: t, srv: srv, p: p, stream: stream, id: b.ID,
+		srv, p, leader, epoch := roles()
+		run := &vC13Run{t: t, srv: srv, p: p, stream: stream, id: b.ID, all: []*Server{srvA, srvB},
+			expLeader: leader, expEpoch: epoch,
 			base: map[string]int64{"L": vC13Count(p["L"]), "F": vC13Count(p["F"])}}
 		for _, g := range b.Cfg["groups"].([]interface{}) {
 			run.groups = append(run.groups, g.(string))
@@ -411,10 +769,20 @@ func TestVerifGroupSub(t *testing.T) {
 		tw.Emit(vC13Event{T: b.ID, A: "Open", Args: map[string]interface{}{}, St: run.state(),
 			Obs: vC13Obs{A: "Open"}})
 		for _, step := range b.Steps {
-			tw.Emit(run.step(step))
+			ev := run.step(step)
+			switch ev.A {
+			case "Race":
+				races++
+			case "Elect":
+				elects++
+			}
+			tw.Emit(ev)
 		}
 		run.finish()
+		fifo += run.fifo
 	}
+	fmt.Fprintf(os.Stderr, "c13: %d behaviours, %d Race steps (%d with FIFO hand-over of consumersMu), %d Elect steps executed\n",
+		len(sf.Behaviours), races, fifo, elects)
 }
 
 // isFollowingNow: the partition object runs its follower loop
